@@ -55,6 +55,32 @@ def sc_success(w, kind, n_up, early, client_first):
                 listener={"http": "http", "socks5": "socks", "reverse": "rev"}[kind])
 
 
+BANNER = b"220 banner from the far side, coalesced with the upstream's 200\r\n"
+
+
+def sc_banner(w, kind, n_up):
+    """through an upstream HTTP proxy that sends its 200 and the first tunnel bytes in one segment"""
+    port = w["org2"].port
+    if kind == "http":
+        c, head, extra = e2e.http_connect(w["lp"]["http"], "%s:%d" % (LOOP, port))
+        ok = head.startswith(b"HTTP/1.1 200")
+    else:
+        c, sel, rp_ = e2e.socks5_connect(w["lp"]["socks"], LOOP, port)
+        ok, extra = rp_[:2] == b"\x05\x00", b""
+    src = "%s:%d" % c.getsockname()
+    if not ok:
+        e2e.close_quiet(c)
+        return dict(cls="setup-failed", source=src, kind=kind)
+    c.sendall(b"b" * n_up)
+    want = len(BANNER) + n_up
+    got = extra + e2e.recv_exact(c, want - len(extra), timeout=10)
+    c.shutdown(socket.SHUT_WR)
+    e2e.recv_all(c, timeout=5)
+    e2e.close_quiet(c)
+    return dict(cls="finished", source=src, kind=kind, up=n_up, down=len(got), target="%s:%d" % (LOOP, port), connector="up", client_first=True,
+                listener="http" if kind == "http" else "socks", banner_ok=got.startswith(BANNER))
+
+
 def sc_denied(w, kind):
     if kind == "http":
         c, head, extra = e2e.http_connect(w["lp"]["http"], "%s:9" % LOOP)
@@ -131,9 +157,12 @@ def run_world(rep, driver, model, r, tier, splice, hsize, n_eval, dist):
     lp = {"http": e2e.free_port(), "socks": e2e.free_port(), "rev": e2e.free_port()}
     listeners = [{"name": "http", "bind": "%s:%d" % (LOOP, lp["http"])}, {"name": "socks", "bind": "%s:%d" % (LOOP, lp["socks"])},
                  {"name": "rev", "type": "reverse", "bind": "%s:%d" % (LOOP, lp["rev"]), "target": "%s:%d" % (LOOP, org.port)}]
-    p = e2e.Proxy(driver, listeners, [{"name": "direct"}], [{"filter": "request.target.port == 9", "target": "deny"}, {"target": "direct"}],
+    org2 = e2e.Server(e2e.echo_handler)
+    upsrv = e2e.Server(e2e.http_upstream(verdict=b"HTTP/1.1 200 OK\r\n\r\n" + BANNER, relay_to=(LOOP, org2.port)))
+    p = e2e.Proxy(driver, listeners, [{"name": "direct"}, {"name": "up", "type": "http", "server": LOOP, "port": upsrv.port}],
+                  [{"filter": "request.target.port == 9", "target": "deny"}, {"filter": "request.target.port == %d" % org2.port, "target": "up"}, {"target": "direct"}],
                   metrics=True, access_log=True, name="c16-%s-%d" % ("s" if splice else "b", hsize), history=hsize, io={"useSplice": splice, "bufferSize": 65536})
-    w = {"org": org, "closed": closed, "lp": lp}
+    w = {"org": org, "org2": org2, "closed": closed, "lp": lp}
     io = [splice, hsize]
     try:
         p.start()
@@ -144,7 +173,9 @@ def run_world(rep, driver, model, r, tier, splice, hsize, n_eval, dist):
         for _ in range(n):
             k = r.random()
             kind = r.choice(["http", "socks5", "reverse"])
-            if k < 0.45:
+            if k < 0.12:
+                jobs.append(lambda kind=r.choice(["http", "socks5"]), up=r.choice([0, 13, 4000]): sc_banner(w, kind, up))
+            elif k < 0.45:
                 up = r.choice([0, 1, 100, 5000, 70000])
                 jobs.append(lambda kind=kind, up=up, e=r.choice([0, 0, min(up, 10), up]), cf=True: sc_success(w, kind, up, e, cf))
             elif k < 0.55:
@@ -213,6 +244,8 @@ def run_world(rep, driver, model, r, tier, splice, hsize, n_eval, dist):
     finally:
         p.stop()
         org.close()
+        org2.close()
+        upsrv.close()
         import shutil
         shutil.rmtree(p.dir, ignore_errors=True)
     if not alive:
